@@ -176,9 +176,10 @@ PROPS = {
         "runs": [distr("", 320, 12000)],
         "preds": ["C04."],
         "rule": DISTR_RULE + "; C04 compares every destination's credited amount (balance gained + recorded remains) with an independent exact-rational oracle of the configured shares",
-        "partial": ["the independence from the order of the sources and the composition of the per-step law along chains of internal accounts are checked "
-                    "against the exact-rational oracle on every run; in Coq the per-step law (truncated share, remainder to primary, fractions booked) and the "
-                    "cumulative drift bound (below one 10^-18 unit per step, never above the exact fraction) are proved"],
+        "partial": ["the independence from the order in which the (non-MAIN) sources are listed is checked against the exact-rational oracle on every run; "
+                    "in Coq: the per-step law, the cumulative drift bound (below one 10^-18 unit per step, never above the exact fraction) and, over whole "
+                    "histories incl. chains of internal accounts, the refinement of the credited-amounts machine (Ledger.a_block) under the hypotheses "
+                    "not-K1, not-K2, not-K4 and no failing sweep"],
         "level_text": "Coq theorems: a named share is floor(inflow*share) in 18-digit fixed point between 0 and the inflow; per step every share event, "
                       "the burn and the primary remainder are exactly as configured and the books grow by exactly those amounts (fractions kept); "
                       "crediting one destination touches no other. K3 and K4 refuted by computed witnesses. The implementation's per-destination "
@@ -204,16 +205,19 @@ PROPS = {
     },
     "C14": {
         "title": "Failed transfers in the distributor lose nothing and are made up later",
-        "model": "Distributor.v: bank with fault oracle (transfer, burn, failed_debit), prepare_source, payout",
+        "model": "Distributor.v: bank with fault oracle (transfer, burn, failed_debit), prepare_source, payout; Ledger.v: the credited-amounts machine a_block, block_split",
         "runs": [distr("faults", 220, 8000), distr("", 120, 4000)],
         "preds": ["C14.", "C03."],
         "rule": DISTR_RULE + "; C14: fault mode injects failures on ~30% of the bank calls for 2-11 blocks, then runs fault-free blocks and compares final balances with a fault-free twin run (acyclic graphs)",
-        "partial": ["'made up later up to one base unit' across blocks is checked against a fault-free twin on every run; in Coq: a failed payout keeps "
-                    "the full remains, a failed call with sufficient funds leaves the bank untouched, a failed sweep contributes nothing, the retry "
-                    "pays the accumulated integer part"],
+        "partial": ["the 'made up later' theorem (C14_failures_never_change_what_an_account_is_credited) covers failing payouts and burns; failing sweeps of "
+                    "the sources are outside its hypotheses (they postpone the collection, which legitimately changes later blocks: finding K11, vesting-locked "
+                    "sources) and are covered by the books theorem and by the fault-free twin comparison on every run"],
         "level_text": "Coq theorems over the fault-oracle bank: (history level, C14_books_hold_whatever_fails) for every pattern of failing sweeps, payouts and burns over histories of any length the recorded remains add up to exactly the main balance after every block - nothing that failed to leave is forgotten; a failed payout or burn leaves the state's remains intact; a failed call that is not an "
                       "insufficient-funds failure leaves the bank unchanged; a failed sweep contributes no inflow and keeps books+inflow constant; "
-                      "a later successful payout pays exactly the accumulated integer part. The real keeper runs over a fault-injecting BankKeeper; "
+                      "a later successful payout pays exactly the accumulated integer part. Refinement (LedgerProofs.v): the real BeginBlock refines the "
+                      "credited-amounts machine of Ledger.v for every pattern of failing payouts and burns, so two runs of one history that differ only in "
+                      "those failures credit every account, the burn and the unbooked remainder identically after every prefix, and settled balances are "
+                      "equal exactly. The real keeper runs over a fault-injecting BankKeeper; "
                       "the registered invariants are evaluated after every block and final balances compared with a fault-free twin.",
     },
     "C18": {
